@@ -297,6 +297,74 @@ def clause_redelivery_readonly(prog, rep):
     rep.floor("redelivery-readonly", "arms on terminal processed-message states", n, 4)
 
 
+REMOVERS = ("remove", "pop", "pop_lru", "pop_entry", "remove_entry", "retain", "clear", "drain", "swap_remove", "shift_remove", "truncate")
+
+
+def clause_resave_evicts_nothing(prog, rep):
+    """the memory backend bounds the number of messages kept per group by evicting the oldest one.  Saving a message that is already
+    stored (the relay echo of an own message: Created -> Processed; a message processed again after a rollback) must not evict
+    anything: every removal from the message maps in save_message happens only when the saved id was found absent"""
+    fs = [g for g in prog.find(name="save_message", crate="mdk_memory_storage") if not g.is_closure() and "MessageStorage" in g.path]
+    rep.floor("resave-evicts-nothing", "memory MessageStorage::save_message", len(fs), 1)
+    n = 0
+    for f in fs:
+        msg = [l for l in range(1, f.nargs + 1) if last_seg(f.locals[l].replace("&", "")) == "Message" or f.locals[l].endswith("::Message")]
+        tests = []
+        for c in f.live_calls():
+            if c.name in ("contains_key", "contains") and c.krate in ("core", "alloc", "std", "hashbrown", "lru") and len(c.args) == 2 and "p" in c.args[1]:
+                dep, _, _ = f.depends_on(c.args[1]["p"][0])
+                if any(m in dep for m in msg) and "id" in A.origins(prog, f, c.args[1]["p"][0], scope=None, max_frames=0).fields:
+                    tests.append(c)
+        absent = set()
+        for t in tests:
+            te = A.bool_true_edges(f, t)
+            for (w, sx) in te:
+                for s2 in f.succs()[w]:
+                    if s2 != sx:
+                        absent.add((w, s2))
+        # the same test written as a lookup (`if let Some(existing) = map.get_mut(&id)`, `map.get(&id).is_none()`)
+        for c in f.live_calls():
+            if c.name not in ("get", "get_mut", "peek", "peek_mut", "get_key_value") or len(c.args) != 2 or "p" not in c.args[1] or not c.dst:
+                continue
+            if last_seg(c.self_adt) not in ("HashMap", "LruCache", "BTreeMap"):
+                continue
+            dep, _, _ = f.depends_on(c.args[1]["p"][0])
+            if not any(m in dep for m in msg) or "id" not in A.origins(prog, f, c.args[1]["p"][0], scope=None, max_frames=0).fields:
+                continue      # (keyed by the message's own id, not by its group)
+            copies = set(x for x in f.flows_from({c.dst[0]}, through_calls=False))
+            for bb, st in f.stmts():
+                if st.get("k") == "discr" and last_seg(st.get("adt")) == "Option" and st["o"] and "p" in st["o"][0] and st["o"][0]["p"][0] in copies:
+                    for w in range(f.nblocks()):
+                        t = f.term(w)
+                        if t["k"] == "switch" and A._opl(t["discr"]) == st["d"][0]:
+                            tg = dict((v, b) for v, b in t["targets"])
+                            absent.add((w, tg.get(0, t["otherwise"])))
+            for y in f.live_calls():
+                if y.name in ("is_some", "is_none") and y.args and "p" in y.args[0] and y.args[0]["p"][0] in copies:
+                    te = A.bool_true_edges(f, y)
+                    if y.name == "is_none":
+                        absent |= te
+                    else:
+                        for (w, sx) in te:
+                            absent |= set((w, s2) for s2 in f.succs()[w] if s2 != sx)
+        for g in prog.family(f):
+            for c in g.live_calls():
+                if c.name not in REMOVERS or last_seg(c.self_adt) not in ("HashMap", "LruCache", "BTreeMap", "Vec", "VecDeque", "HashSet"):
+                    continue
+                n += 1
+                at = c.bb
+                if g is not f:
+                    # inside a closure of save_message: judged where the closure is created / invoked
+                    sites = [b for b, st in f.stmts() if st.get("k") == "closure" and st.get("closure") == g.path]
+                    at = sites[0] if sites else None
+                ok = bool(absent) and at is not None and at not in A.reach_without_edges(f, 0, absent)
+                rep.check(ok, "resave-evicts-nothing", "memory/save_message/%s::%s" % (last_seg(c.self_adt), c.name),
+                          "an entry is removed only after the saved message's id was found absent from the group's map (a new message in a full group)",
+                          "saving a message can remove a stored entry although the saved id is already present: the echo / re-processing of a stored "
+                          "message in a full group evicts another stored message", c.loc())
+    rep.floor("resave-evicts-nothing", "removals from the message maps in memory save_message", n, 2)
+
+
 def run(ctx, rep):
     prog = ctx.prog()
     rep.fns_analysed = len(K.core_scope(prog))
@@ -307,6 +375,7 @@ def run(ctx, rep):
     rep.clause("C07.3 the MIP-03 comparator is irreflexive (same commit is not better than itself) — decision table shared with C01")
     rep.clause("C07.6 the own-pending-commit shortcut requires ContentType::Commit and a pending commit")
     rep.clause("C07.7 arms handling a record in a terminal state (ProcessedCommit / Processed / Failed / EpochInvalidated) reach no OpenMLS call that takes the group mutably")
+    rep.clause("C07.8 memory backend: saving a message whose id is already stored evicts nothing (the per-group bound only applies to new ids)")
     rep.clause("C07.4 a rewritten failure record keeps the message_event_id of the existing record")
     rep.clause("C07.5 mdk-core writes only Created/Processed into messages; invalidation and retry marking run only after a successful rollback")
     rep.not_decided = "MLS-state equality after replays (OpenMLS generation handling), behaviour over repetition counts"
@@ -323,3 +392,4 @@ def run(ctx, rep):
     clause_own_commit_pending(prog, rep)
     clause_state_writes(prog, rep)
     clause_redelivery_readonly(prog, rep)
+    clause_resave_evicts_nothing(prog, rep)
